@@ -121,9 +121,30 @@ def check_windows(repo, rep):
     rid = "C07-R2"
     rep.rule(rid, "every completed-window site has the shape: guard E % count == 0, slice [E - count : E] of the 1m input for one "
                   "affine E (i+1 in the step simulator / warm-up injection / research helper, i+candles_step in the fast simulator): "
-                  "window length = count and right edge = guard expression")
-    sites = [(BT, "_step_simulator"), (BT, "_simulate_new_candles"), (CANDLE, "inject_warmup_candles_to_store"), (CANDLE, "_get_generated_candles")]
+                  "window length = count and right edge = guard expression; in the simulators the sites are found by following the "
+                  "input through helpers, aliases and recursive calls (index-flow engine), not by name")
+    sites = [(CANDLE, "inject_warmup_candles_to_store"), (CANDLE, "_get_generated_candles")]
     found = 0
+    # the simulators: followed through helpers, aliases and renamed variables by the index-flow engine (vlib/idxflow.py)
+    from vlib.idxflow import Flow, Slice
+    for sim in ("_step_simulator", "_skip_simulator"):
+        fl = Flow(repo, BT, interest={"generate_candle_from_one_minutes"})
+        fl.run_simulator(sim)
+        for c in fl.calls:
+            if not c.in_loop:
+                continue
+            a1 = c.args[1] if len(c.args) > 1 else None
+            if not isinstance(a1, Slice):
+                if a1 == "STORED" or c.fn == "_update_all_routes_a_partial_candle":
+                    continue            # partial candle from the stored 1m candles: C07-R2b
+                rep.violation(rid, f"{c.fn}|shape", f"{c.fn}: aggregation input is not a slice of the 1m candles: {norm(c.node)[:100]}")
+                continue
+            found += 1
+            ok = any(a1.hi == E and (a1.hi - a1.lo) == cnt for E, cnt in c.mods)
+            if not ok:
+                rep.violation(rid, f"{c.fn}|window", f"{c.fn} (through {' > '.join(c.chain)}): window [{a1.lo!r} : {a1.hi!r}] of the 1m input is aggregated under the guards "
+                                                    f"{[(repr(E) + ' % ' + repr(cnt) + ' == 0') for E, cnt in c.mods] or 'none'}: its length must be the guard's count and its right edge the guard's expression")
+            rep.instance(rid, f"{sim}|{c.fn}|{' > '.join(c.chain)}", {"site": c.fn, "slice": f"[{a1.lo!r}:{a1.hi!r}]", "guards": [f"{E!r} % {cnt!r} == 0" for E, cnt in c.mods]})
     for rel, fname in sites:
         fn = repo.func(rel, fname)
         for call in [n for n in ast.walk(fn) if isinstance(n, ast.Call) and SL.last(SL.dotted(n.func)) == "generate_candle_from_one_minutes"]:
@@ -154,6 +175,14 @@ def check_windows(repo, rep):
     if found < 4:
         raise AnalysisError(f"C07-R2: only {found} completed-window sites found (expected 4)")
     rep.floor(rid, 4)
+
+
+def check_windows_sessions(repo, rep):
+    from props import sessions as S
+    rep.rule("C07-R2s", "both simulator functions interpreted whole on mini sessions (props/sessions.py): every completed window of the route "
+                        "timeframe is generated exactly once per symbol, from exactly that symbol's 1m candles of the aligned window, before "
+                        "the strategies of that step run; no window that does not complete inside the session is generated")
+    S.check_generation(repo, rep, "C07-R2s")
 
 
 # ------------------------------------------------------------------ R2b partial candle count
@@ -468,8 +497,10 @@ def check_partial_candle_so_far(repo, rep, tier):
 def check_symbols_minute_major(repo, rep):
     """C07 at fill hooks with several symbols: 'exactly one candle per started window' for the OTHER symbols' candles needs all symbols to
     advance minute by minute; the fast simulator replays a whole chunk per symbol (the same construct as C02-R7)"""
-    from props.c02 import check_symbol_interleaving
-    check_symbol_interleaving(repo, rep, rid="C07-R12", protocol=False)
+    from props import sessions as S
+    rep.rule("C07-R12", "both simulator functions interpreted whole on mini sessions with the matcher recorded: every minute of every symbol is "
+                       "matched exactly once, in order, and with several symbols minute-major (every symbol's minute m before any symbol's minute m+1)")
+    S.check_cover(repo, rep, "C07-R12")
 
 
 def run(repo: Repo, rep, tier: str):
@@ -477,6 +508,7 @@ def run(repo: Repo, rep, tier: str):
     rep.assume("sessions start and warm-up lengths are aligned to every route timeframe (stated in the property)")
     rep.guarded(check_formula, repo, rep)
     rep.guarded(check_windows, repo, rep)
+    rep.guarded(check_windows_sessions, repo, rep)
     rep.guarded(check_partial, repo, rep, tier)
     rep.guarded(check_tables, repo, rep)
     rep.guarded(check_forming, repo, rep)
